@@ -137,12 +137,13 @@ def ob_wnaf_code(bits, window, mode):
 
     def havoc(regs):
         cobj, aobj = state.get("c"), state.get("a")
-        if cobj is None or aobj is None:
-            raise Inconclusive("could not identify the loop-carried BigInt objects of from_bigint")
+        if cobj is None:
+            raise Inconclusive("could not identify the loop-carried BigInt object of from_bigint")
         regs[phis[0].res] = eir.simp(Iv)
         for k in range(nb // 8):
             I.store_cell(cobj, 8 * k, 8, eir.simp(z3.Extract(64 * k + 63, 64 * k, C)))
-        I.store_cell(aobj, 0, 1, A0)
+        if aobj is not None:          # the scratch operand of the add-back (a variant may update the low word directly and have none)
+            I.store_cell(aobj, 0, 1, A0)
         for j in range(nbuf):
             I.store_cell(state["this"], j, 1, old[j])
     cut.havoc = havoc
@@ -335,8 +336,9 @@ def ob_wnaf_base(bits, window):
         s = I.solver
         if kind == "header":
             cv = eir.as_bv(I.load_bytes(objs["c"], 0, nb), bits)
-            av = I.load_bytes(objs["a"], 0, nb)
-            vc = z3.And(cv == S, S != 0, eir.as_bv(av, bits) == 0, eir.as_bv(seen["i"], 64) == 0)
+            vc = z3.And(cv == S, S != 0, eir.as_bv(seen["i"], 64) == 0)
+            if "a" in objs:
+                vc = z3.And(vc, eir.as_bv(I.load_bytes(objs["a"], 0, nb), bits) == 0)
         else:
             szc = this.cells.get(((bits + 1 + 3) // 4) * 4)
             vc = z3.And(S == 0, eir.as_bv(szc[1], 32) == 0) if szc else z3.BoolVal(False)
@@ -410,7 +412,7 @@ def main(argv=None):
     chk.trusted = ["BigInt<bits> word operations meet their bit-vector specifications (C02)", "clang -O1 IR vs -Ofast build (replay uses shipped flags)", "z3"]
     chk.assumptions = ["later iterations: c <= 2^(bits-1) + 2^(w-1), implied by the invariant (lemma B2)"]
     # lower layers whose specifications this check relies on: their obligations are part of this check's claim (framework.Check.include)
-    for dep in ['C02', 'C04', 'C05']:
+    for dep in ['C02', 'C04', 'C05', 'C18', 'C19']:
         chk.include(dep)
     chk.run()
     chk.finish()
